@@ -508,7 +508,9 @@ pub fn judge_c10(info: &Info, log: &RunLog, rep: &mut Report) {
     }
     // ... and a receiver that had already concluded the transfer (for whatever outcome) before the
     // cancel could reach it keeps that outcome: the cancel lost the race against the end of the transfer
-    let concluded_first = d.finished(t.dst, id).first().map(|f| f.2.report.condition != Condition::CancelReceived).unwrap_or(false);
+    // (before = by the time the cancel, issued at c_t, could have reached the receiver over the link)
+    let reach = c_t + (info.latency_ms + info.max_delay_ms + 20) * 1000;
+    let concluded_first = d.finished(t.dst, id).first().map(|f| f.2.report.condition != Condition::CancelReceived && f.1 <= reach).unwrap_or(false);
     if concluded_first {
         rep.count("c10_cancel_lost_race_against_end");
     }
